@@ -42,7 +42,7 @@ PROPS = {
         "engines": [storm()],
         "rule": "each evaluation is one bank touched by an instruction that must accrue first; post share values are compared with an exact reference accrual from the pre-state (curve, fees, utilisation, dt); informative = dt>0 and non-zero utilisation; distinct = (kind, dt class, utilisation decile)",
         "assumptions": COMMON_ASSUMPTIONS + ["a deposit that deposits nothing (amount 0 / no remaining capacity) transacts nothing and is not required to accrue"],
-        "floors": {"quick": {"storm.receivership_brackets_committed": 4, "C06.informative_accruals_at_zero_base_rate": 50, "C06.informative_accruals/AccrueInterest": 30, "C06.informative_accruals/Deposit": 30, "C06.informative_accruals/Withdraw": 10, "C06.informative_accruals/Borrow": 10, "C06.informative_accruals/Repay": 10}},
+        "floors": {"quick": {"C06.bankruptcies_after_elapsed_time_judged": 10, "C06.noop_deposits_that_accrued": 100, "storm.receivership_brackets_committed": 4, "C06.informative_accruals_at_zero_base_rate": 50, "C06.informative_accruals/AccrueInterest": 30, "C06.informative_accruals/Deposit": 30, "C06.informative_accruals/Withdraw": 10, "C06.informative_accruals/Borrow": 10, "C06.informative_accruals/Repay": 10}},
     },
     "C16": {
         "engines": [storm(sq=12, st=12), storm("venue", arg="C16:venue", sq=4, st=4)],
